@@ -14,7 +14,7 @@ import gcmpy.message_passing.message_passing as _mp_module
 import gcmpy.message_passing.equations.automated_equation as _ae_module
 from gcmpy.message_passing.message_passing import MessagePassing
 
-from .. import setseam
+from .. import setseam, interesting
 
 from ..engine import describe_exc
 from ..models.percolation import expectation
@@ -198,6 +198,13 @@ def generate(prng, tier, index):
     qs = [prng.choice(grid) for _ in range(nq)]
     if prng.random() < 0.5:
         qs[prng.randrange(nq)] = qs[0]          # a repeated phi
+    if prng.random() < 0.4:
+        # a value unequal to the previous query but within float-comparison tolerance of it (memoisation by isclose,
+        # rounding of keys, ...): consecutive, as in a bisection
+        i = prng.randrange(1, nq)
+        qs[i] = interesting.near(prng, float(qs[i - 1]) if qs[i - 1] not in (0, 1) else 0.5)
+        if qs[i - 1] in (0, 1):
+            qs[i - 1] = 0.5
     iters = prng.choice((1, 2, 3, 5, 8, 12, 20, 25, 40) if tier == "thorough" else (1, 2, 3, 5, 8, 12, 20))
     if prng.random() < 0.03:
         iters = 0               # no sweep at all: the value is 1 - average of 0.5^(motifs at the vertex)
